@@ -124,6 +124,36 @@ def run(tier, out, model_ok, proof):
                     cases.append(c2)
                     splits.append(("b%d_%d" % (i, j), c2["id"], bs, i))
     res, crashes = docgen.run_build(cases)
+    # Option values that outlive a build: one option per kind, made once per process and handed to
+    # several builds IN ONE PROCESS, in an order that is part of the case list - a build with two
+    # options, then builds with one of them on projects containing the other's kind, then the first
+    # builds again; every build is judged against the build of the same project without options
+    seq = []
+    sk = ["INFO", "SERVER", "TYPE", "GET", "POST", "TAG", "URL", "ENUM", "Query", "Request", "HTTP-response-code", "Headers"]
+    some = [i for i, f in enumerate(projects) if len(f) == 1][:6]
+    for rnd in range(3):
+        for i in some:
+            for a in range(len(sk)):
+                bs = [sk[a]] if rnd != 1 else [sk[a], sk[(a + 1 + i) % len(sk)]]
+                c = treecorr.project_case("q%d_%d_%d" % (rnd, i, a), projects[i])
+                c["banned"] = bs
+                c["banreuse"] = True
+                seq.append((c, i, bs))
+    sres, scr = docgen.run_build([c for c, _, _ in seq], shards=1, min_shard=10 ** 9)
+    for c, i, bs in seq:
+        plain, r = res.get("b%d_plain" % i), sres.get(c["id"])
+        if plain is None or r is None or plain["end"] == "panic" or r["end"] == "panic":
+            continue
+        present = [(f, l, k) for f, l, k in line_kinds(projects[i]) if k in bs]
+        show = {"banned (options reused across the builds of one process)": list(bs), "files": {n: d.decode("latin1")[:1500] for n, d in projects[i].items()}}
+        if not present:
+            same = plain["end"] == r["end"] and plain.get("json") == r.get("json") and docgen.err_text(plain) == docgen.err_text(r)
+            if not same:
+                out.violations.append({"what": "no banned directive occurs, yet the result differs from the build without the option when the Option values are reused from earlier builds: %s" % docgen.err_text(r)[:80],
+                                       "class": "other", "input": show})
+        elif plain["end"] == "ok" and (r["end"] == "ok" or NOT_ALLOWED not in docgen.err_text(r)):
+            out.violations.append({"what": "a banned directive occurs but the build with reused options %s" % ("succeeds" if r["end"] == "ok" else "fails with another error"),
+                                   "class": classify(projects[i], bs, "present"), "input": show})
     for joint, sid, bs, i in splits:
         a, b = res.get(joint), res.get(sid)
         if a is None or b is None or a["end"] == "panic" or b["end"] == "panic":
@@ -166,7 +196,7 @@ def run(tier, out, model_ok, proof):
     out.coverage.update({
         "evaluations": len(cases),
         "distinct_nontrivial": rejected + neutral,
-        "rule": "structured projects (single file, include trees, macro forms, unused macros; also projects refused for a reason of their own: no JSIGHT directive, JSIGHT not first, one injected rule fault of each class, empty file) x ban sets: every single kind of the 31%s; every pair also given as several options in both orders (must equal the single option); expected verdict computed from the kinds written in the project text (lib: line_kinds): rejected with the not-allowed error on a banned directive if one occurs, otherwise byte-identical to the build without the option" % (", every pair on 40 projects and sampled pairs elsewhere" if big else " and 12 sampled pairs per project"),
+        "rule": "structured projects (single file, include trees, macro forms, unused macros; also projects refused for a reason of their own: no JSIGHT directive, JSIGHT not first, one injected rule fault of each class, empty file) x ban sets: every single kind of the 31%s; every pair also given as several options in both orders (must equal the single option); Option values kept and reused across 200 builds of one process (single, then paired, then single again); expected verdict computed from the kinds written in the project text (lib: line_kinds): rejected with the not-allowed error on a banned directive if one occurs, otherwise byte-identical to the build without the option" % (", every pair on 40 projects and sampled pairs elsewhere" if big else " and 12 sampled pairs per project"),
         "samples": [{"banned": list(metas[0][2]), "root": projects[0]["root.jst"].decode("latin1")[:200]}],
         "rejected_as_expected": rejected, "neutral_cases": neutral,
         "exhaustive": big,
